@@ -311,5 +311,11 @@ pub static LIVE_WRITERS: Gauge = Gauge::new();
 /// `handle_changes`: changesets sitting in its queue / batches in flight
 pub static HC_QUEUE: Gauge = Gauge::new();
 pub static HC_INFLIGHT: Gauge = Gauge::new();
-/// `handle_changes`: number of loop iterations started (liveness / idleness probe)
-pub static HC_LOOPS: Gauge = Gauge::new();
+/// `handle_changes`: changesets received so far
+pub static HC_RECV: Gauge = Gauge::new();
+/// `handle_changes`: value of HC_RECV when HC_QUEUE / HC_INFLIGHT were last refreshed
+/// (all three are written together at the top of the loop, so
+/// `HC_SYNCED == sent && HC_QUEUE == 0 && HC_INFLIGHT == 0` means idle)
+pub static HC_SYNCED: Gauge = Gauge::new();
+/// `handle_changes`: changesets dropped because the queue was full
+pub static HC_DROPPED: Gauge = Gauge::new();
